@@ -285,7 +285,7 @@ def generic_lints(ctx: Ctx, rule: str = "lint", kinds=None, scope=None):
     from ..loader import AnalysisError
     from ..scope import in_scope
 
-    if L.self_check() != (21, 0) or L.orientation_self_check() != (1, 0):
+    if L.self_check() != (23, 0) or L.orientation_self_check() != (1, 0):
         raise AnalysisError(f"generic lints: the positive control is no longer recognised {L.self_check()} {L.orientation_self_check()}")
     n, hits = 0, []
     members = []
@@ -330,7 +330,7 @@ def generic_lints(ctx: Ctx, rule: str = "lint", kinds=None, scope=None):
     for where, kind, why in hits:
         ctx.violated(f"{rule}.{kind}", where, kind, "see cubeverif/lints.py", why)
     if not hits:
-        ctx.held(rule, "this property's code: floor division, int casts, identity with literals, unordered sets", f"{n} functions scanned, none found", "", "positive control: 21 of 21 recognised")
+        ctx.held(rule, "this property's code: floor division, int casts, identity with literals, unordered sets", f"{n} functions scanned, none found", "", "positive control: 23 of 23 recognised")
     if kinds is None and scope is None:
         public_cache_slots(ctx)
 
